@@ -9,6 +9,11 @@ from vf import import_desper
 from vf import session
 from vf.core import Res, HarnessError
 
+
+class HarnessInterrupt(BaseException):
+    """A scripted fault that is not an Exception (as KeyboardInterrupt,
+    SystemExit, GeneratorExit, asyncio.CancelledError are not)."""
+
 ID = 'C09'
 LEVEL = 'exploration'
 RULE = ('histories of start, kill (processor.kill or promise.kill), re-start, '
@@ -697,7 +702,11 @@ def run_release(case):
             for name, target in item['acts']:
                 kill(target if target < nc else k, True)
             if item.get('raise'):
-                fault.append(HarnessError(f'coroutine {k} raises'))
+                # (every other time an exception that is NOT an Exception:
+                # KeyboardInterrupt-like; the program catches it all the same)
+                fault.append((HarnessInterrupt if (k + len(fault)) % 2
+                              else HarnessError)(
+                    f'coroutine {k} raises'))
                 raise fault[-1]
             yield item['y']
         steps.append((k, len(script)))
@@ -734,7 +743,7 @@ def run_release(case):
         failed = False
         try:
             proc.process(dt)
-        except Exception as ex:
+        except (Exception, HarnessInterrupt) as ex:
             if len(fault) == nfaults + 1 and ex is fault[-1]:
                 failed = True
                 flags.add('frame-failed-by-raising-body')
